@@ -70,12 +70,13 @@ Fixpoint find_nul (l : list N) (i : N) : option N :=
   end.
 
 (* formats 1, 3, 5: 16-bit length then the bytes; [extra] is 1 for format 3, whose terminator is
-   counted as consumed without being looked at.  3 + Length is computed in int (after the fix). *)
+   counted as consumed without being looked at but (after the fix) has to be present.  3 + Length is
+   computed in int (after the fix). *)
 Definition ss_unmarshal_counted (f : N) (b : list N) (extra : N) : R (smb_string * N) :=
   if lenN b <? 3 then Err else
   let* lb := go_slice b 1 3 in
   let* len := go_le_uint 2 lb in
-  if lenN b <? len + 3 then Err else
+  if lenN b <? len + 3 + extra then Err else
   let* body := go_slice b 3 (3 + len) in
   Ok (mk_ss f len body, len + 3 + extra).
 
